@@ -1,0 +1,54 @@
+//go:build verif
+
+// Verification hooks (build tag `verif` only; add-only file, nothing here is compiled into the product).
+// A constructor that takes the ipset / iptables handles and the listers instead of the exec-backed handles and
+// the informer-backed listers of New, and thin wrappers around the private sync entry points.
+package policy
+
+import (
+	"k8s.io/client-go/kubernetes"
+	corev1Lister "k8s.io/client-go/listers/core/v1"
+	networkingv1Lister "k8s.io/client-go/listers/networking/v1"
+	"k8s.io/client-go/tools/cache"
+	"tkestack.io/galaxy/pkg/utils/ipset"
+	utiliptables "tkestack.io/galaxy/pkg/utils/iptables"
+)
+
+// verifInformer answers HasSynced with a fixed value; every other method of the embedded (nil) interface is unused
+// by the sync paths.
+type verifInformer struct {
+	cache.SharedIndexInformer
+	synced bool
+}
+
+func (v verifInformer) HasSynced() bool { return v.synced }
+
+// VerifNew builds a PolicyManager over the given handles and listers.  No informer is started; the pod informer
+// factory start (startPodInformerFactory) is turned into a no-op; podsSynced is what podCachedInformer.HasSynced
+// reports to syncPods.
+func VerifNew(client kubernetes.Interface, ipsetHandle ipset.Interface, iptableHandle utiliptables.Interface,
+	hostName string, podLister corev1Lister.PodLister, namespaceLister corev1Lister.NamespaceLister,
+	policyLister networkingv1Lister.NetworkPolicyLister, podsSynced bool) *PolicyManager {
+	pm := &PolicyManager{
+		client:            client,
+		ipsetHandle:       ipsetHandle,
+		iptableHandle:     iptableHandle,
+		hostName:          hostName,
+		podLister:         podLister,
+		namespaceLister:   namespaceLister,
+		policyLister:      policyLister,
+		podCachedInformer: verifInformer{synced: podsSynced},
+		quitChan:          make(chan struct{}),
+	}
+	pm.podInformerOnce.Do(func() {})
+	return pm
+}
+
+// VerifSyncNetworkPolicies runs syncNetworkPolices (list policies, compile them into p.policies).
+func (p *PolicyManager) VerifSyncNetworkPolicies() { p.syncNetworkPolices() }
+
+// VerifSyncNetworkPolicyRules runs syncNetworkPolicyRules (ipsets + GLX-PLCY-* chains of p.policies).
+func (p *PolicyManager) VerifSyncNetworkPolicyRules() { p.syncNetworkPolicyRules() }
+
+// VerifSyncPods runs syncPods (SyncPodChains for every pod of this node).
+func (p *PolicyManager) VerifSyncPods() { p.syncPods() }
